@@ -301,6 +301,9 @@ class LockCheck(Check):
         return out
 
     def run_batch(self, exe, scen):
+        if not hasattr(self, '_scen_texts'):
+            self._scen_texts = {}
+        self._scen_texts.update(scen)
         results, stats = common.run_scenarios(exe, list(scen.values()))
         return results, stats
 
@@ -527,7 +530,34 @@ class C13(LockCheck):
             for m in r['mon'][5:].split(' || '):
                 if m.startswith('version') and '[composite guard]' in m:
                     return m
+            # "... an owning guard backed by a genuine shared grant ... which is released exactly once": the guard-level
+            # monitors (operator bool against the ghost, grants never released, final lock words) in scenarios whose only
+            # guards are composite guards next to plain lockers that release by destructor
+            txt = getattr(self, '_scen_texts', {}).get(r['id'], '')
+            if ' prep ' in txt or 'T prep ' in txt or ';prep ' in txt:
+                for m in r['mon'][5:].split(' || '):
+                    if m.startswith('guard') and self.only_composite_moves(txt):
+                        return m
         return None
+
+    @staticmethod
+    def only_composite_moves(txt):
+        """every move / conversion instruction of the scenario works on composite guards (so a guard-level failure is about them)"""
+        kinds = re.search(r'kinds=(\S+)', txt)
+        if not kinds:
+            return False
+        ks = kinds.group(1).split(',')
+        for line in txt.splitlines():
+            if not line.startswith('T'):
+                continue
+            for op in line[1:].split(';'):
+                w = op.split()
+                if w and w[0] in ('massign', 'mctor'):
+                    if not all(int(x) < len(ks) and ks[int(x)] == 'Comp' for x in w[1:3]):
+                        return False
+                if w and w[0] in ('upg', 'dng', 'try'):
+                    return False
+        return True
 
 
 class C11(LockCheck):
@@ -911,7 +941,8 @@ class ZipfCheck(Check):
                 cdfs[cur][int(w[1])] = int(w[2], 16)
         texts = {}
         for c in cases:
-            texts[c['id']] = g.pass2(c, cdfs[c['id']], with_ref=(c['n'] <= self.ref_limit), with_pure=True)
+            texts[c['id']] = g.pass2(c, cdfs[c['id']], with_ref=(c['n'] <= self.ref_limit or bool(c.get('big'))),
+                                     with_pure=not c.get('big'))
         for i, t in enumerate(throws):
             texts[t.split()[1]] = t
         ids = list(texts)
@@ -959,6 +990,7 @@ class ZipfCheck(Check):
             if fn.endswith('.json'):
                 cases.append(json.load(open(os.path.join(d, fn))))
         cases += g.grid_cases(f'z{self.seed}-')
+        cases += g.big_cases(f'z{self.seed}-', full=(self.tier == 'thorough'))
         cases += [g.pick_case(f'z{self.seed}-{i}') for i in range(self.counts[self.tier])]
         throws = g.throw_grid(f'z{self.seed}-') + [g.throw_case(f'zt{self.seed}-{i}') for i in range(24)]
         results, stats, texts = self.run_cases(exe, g, cases, throws)
